@@ -21,7 +21,7 @@
 (*               maxlen].  cst = Seq = <<Choice..>>, Choice = <<Atom..>>,  *)
 (* Atom = [k, a, xs, body, rep], k in arg opt grp end par sq.              *)
 (***************************************************************************)
-EXTENDS RefSemantics, Json
+EXTENDS RefSemantics, Matchers, Json
 
 CONSTANTS FixEpsLoop, FixSimplifyLoop, FixTrailingDD, FixGroupEnvExcl
 
@@ -55,37 +55,8 @@ BAtom(G, at) ==
   IN IF at.rep /\ at.k # "end" THEN [r EXCEPT !.g = AddT(r.g, r.e, Eps, r.s)] ELSE r
 Compile(cst) == LET b == BSeq(EmptyG, cst) IN [g |-> [b.g EXCEPT !.term[b.e] = TRUE], root |-> b.s]
 
-\* ---------- matchers ----------
-Prio(m) == CASE m.k = "opt" -> 1 [] m.k = "grp" -> 2 [] m.k = "arg" -> 8 [] m.k = "end" -> 9 [] OTHER -> 10
-OptM(o, args, ro, env) ==
-  IF Len(args) = 0 \/ ro THEN [ok |-> o \in env, rem |-> args, b |-> <<>>, ro |-> ro]
-  ELSE LET r == Extract(P, o, args, FALSE) IN
-       IF r.ok THEN [ok |-> TRUE, rem |-> r.w, b |-> <<<<"O", o, r.v>>>>, ro |-> ro]
-       ELSE [ok |-> o \in env, rem |-> args, b |-> <<>>, ro |-> ro]
-RECURSIVE TryG(_, _, _, _, _, _), LoopG(_, _, _, _, _, _)
-TryG(keys, args, ro, env, ex, k) ==
-  IF Len(args) = 0 \/ ro \/ k > Len(keys) THEN [ok |-> FALSE]
-  ELSE IF keys[k] \in ex THEN TryG(keys, args, ro, env, ex, k + 1)
-  ELSE LET m == OptM(keys[k], args, ro, env) IN
-       IF m.ok THEN [ok |-> TRUE, rem |-> m.rem, b |-> m.b,
-                     ex |-> IF keys[k] \in env /\ (~FixGroupEnvExcl \/ m.b = <<>>) THEN ex \cup {keys[k]} ELSE ex]
-       ELSE TryG(keys, args, ro, env, ex, k + 1)
-LoopG(keys, args, ro, env, ex, b) ==
-  LET t == TryG(keys, args, ro, env, ex, 1) IN
-  IF ~t.ok THEN [ok |-> TRUE, rem |-> args, b |-> b, ro |-> ro] ELSE LoopG(keys, t.rem, ro, env, t.ex, b \o t.b)
-GrpM(keys, args, ro, env) ==
-  LET t == TryG(keys, args, ro, env, {}, 1) IN
-  IF ~t.ok THEN [ok |-> FALSE, rem |-> args, b |-> <<>>, ro |-> ro] ELSE LoopG(keys, t.rem, ro, env, t.ex, t.b)
-ArgM(a, args, ro) ==
-  IF Len(args) = 0 THEN [ok |-> FALSE, rem |-> args, b |-> <<>>, ro |-> ro]
-  ELSE IF ~ro /\ StartsDash(args[1]) /\ ~IsSingle(args[1]) THEN [ok |-> FALSE, rem |-> args, b |-> <<>>, ro |-> ro]
-  ELSE [ok |-> TRUE, rem |-> Tail(args), b |-> <<<<"A", a, args[1]>>>>, ro |-> ro]
-MatchM(m, args, ro, env) ==
-  CASE m.k = "opt" -> OptM(m.a, args, ro, env)
-    [] m.k = "grp" -> GrpM(m.xs, args, ro, env)
-    [] m.k = "arg" -> ArgM(m.a, args, ro)
-    [] m.k = "end" -> [ok |-> TRUE, rem |-> args, b |-> <<>>, ro |-> TRUE]
-    [] OTHER -> [ok |-> TRUE, rem |-> args, b |-> <<>>, ro |-> ro]
+\* ---------- matchers: tla/Matchers.tla ----------
+MatchM(m, args, ro, env) == MMatch(P, FixGroupEnvExcl, m, args, ro, env)
 
 \* ---------- state machine ----------
 VARIABLES si, env, argv, G, root, phase,
